@@ -12,11 +12,16 @@ import (
 
 // RaceReport is one data-race report of the free-running -race pass.
 type RaceReport struct {
-	Key  string // sorted pair of the innermost gokrb5 functions involved
+	Key  string // sorted pair inner[entry]~inner[entry] of the innermost and outermost gokrb5 functions of the two accesses
 	Text string
 }
 
-var raceFrame = regexp.MustCompile(`(?m)^\s+(github\.com/jcmturner/gokrb5/v8/[^\s(]+)\(`)
+var raceFrame = regexp.MustCompile(`(?m)^\s+(github\.com/jcmturner/gokrb5/v8/\S+?)\(\)\s*$`)
+
+var anyFrame = regexp.MustCompile(`(?m)^  (\S+?)\(\)\s*$`)
+
+// HarnessRaces collects reports where an access is in harness or shim code (shown in evidence notes; to be fixed in /verif).
+var HarnessRaces []string
 
 // RunRace executes the -race build of the harness with the given arguments
 // and returns the data races it reported, keyed by the gokrb5 functions of
@@ -54,14 +59,42 @@ func RunRace(args ...string) ([]RaceReport, int, error) {
 			}
 			// innermost gokrb5 frame of each of the two accesses
 			var fns []string
+			harnessSide := 0
 			for _, part := range regexp.MustCompile(`(?m)^(?:Previous )?(?:[Rr]ead|[Ww]rite) at `).Split(blk, -1)[1:] {
 				stack := strings.SplitN(part, "\n\n", 2)[0]
-				if m := raceFrame.FindStringSubmatch(stack); m != nil {
-					fn := strings.TrimPrefix(m[1], "github.com/jcmturner/gokrb5/v8/")
-					if !strings.HasPrefix(fn, "zzverif/") {
-						fns = append(fns, fn)
+				// The access belongs to the first frame that is not standard library / runtime. It counts as a
+				// gokrb5 access only if that frame is gokrb5 code proper (not the shims mounted under zzverif and
+				// not the harness). Key: inner[entry] with entry the outermost gokrb5 frame of the stack.
+				var inner, entry string
+				harness := false
+				for _, m := range anyFrame.FindAllStringSubmatch(stack, -1) {
+					fn := m[1]
+					isGokrb5 := strings.HasPrefix(fn, "github.com/jcmturner/gokrb5/v8/") && !strings.HasPrefix(fn, "github.com/jcmturner/gokrb5/v8/zzverif/")
+					// standard library, runtime and gokrb5's dependencies: the access is attributed to their caller
+					isStd := !isGokrb5 && !strings.HasPrefix(fn, "verif/") && !strings.HasPrefix(fn, "main.") && !strings.HasPrefix(fn, "github.com/jcmturner/gokrb5/v8/zzverif/")
+					if inner == "" && !harness {
+						switch {
+						case isStd:
+							continue
+						case isGokrb5:
+							inner = strings.TrimPrefix(fn, "github.com/jcmturner/gokrb5/v8/")
+						default:
+							harness = true
+						}
+					}
+					if isGokrb5 {
+						entry = strings.TrimPrefix(fn, "github.com/jcmturner/gokrb5/v8/")
 					}
 				}
+				if harness {
+					harnessSide++
+				} else if inner != "" {
+					fns = append(fns, inner+"["+entry+"]")
+				}
+			}
+			if harnessSide > 0 {
+				HarnessRaces = append(HarnessRaces, blk)
+				continue // at least one access is in the harness or a shim: a harness problem, not a gokrb5 race
 			}
 			if len(fns) == 0 {
 				continue // race inside the harness or shims only: not a gokrb5 access
